@@ -206,7 +206,11 @@ async fn fn_name(
             continue;
         }
 
-        for tile_id in entry.tile_id_range() {
+        // (inclusive, so that a run may end on the tile id `u64::MAX`)
+        let Some(last_tile_id) = entry.last_tile_id() else {
+            continue;
+        };
+        for tile_id in entry.tile_id..=last_tile_id {
             if !filter_range.contains(&tile_id) {
                 continue;
             }
